@@ -8,6 +8,12 @@ CHECKS = {
  'C01': dict(cat='exploration', tech='bounded-exhaustive program x input enumeration, lockstep vs reference interpreter',
     text='Every integer opcode alone over the full cross product of boundary alphabets, every type-correct two-opcode composition over reduced alphabets, the non-builtin bit-count fallbacks, and (thorough) all 2^32 inputs of every unary 32-bit-operand opcode are translated by w2c2 built from /repo, compiled and compared call by call (value and trap kind) with an independent reference interpreter that passes the spec test-suite.',
     note='Trusts the C compiler/libc and the reference interpreter (bound to the spec by ref/selftest: 20 867 spec-suite commands). Binary operators are covered on alphabet x alphabet, not on all 2^64 pairs; programs larger than two operators are covered by C03/C11 corpora only.', ref='§2 C01'),
+ 'C02': dict(cat='exploration', tech='bounded-exhaustive program x input enumeration, lockstep vs reference interpreter (integer-arithmetic IEEE oracle)',
+    text='Every float/conversion opcode alone over the cross product of class-structured bit-pattern alphabets (signed zeros, subnormals, infinities, quiet/signalling NaNs with payloads, both neighbours of every truncation boundary, rounding-tie integers), every type-correct two-opcode composition, and (thorough) all 2^32 inputs of the 22 unary opcodes with a 32-bit operand, compared with a reference whose min/max/ceil/floor/trunc/nearest/conversions are implemented in integer arithmetic on the IEEE encodings. Non-NaN results and trap kinds are compared exactly, spec-unspecified NaN payloads as is-a-NaN, bit-preserving operators exactly.',
+    note='Trusts the host FPU (SSE2) for + - * / sqrt in the oracle and the C compiler/libm. f64 and binary operators are covered on the alphabets only.', ref='§2 C02'),
+ 'C07': dict(cat='exploration', tech='exhaustive enumeration of immediates through the real reader/literal writer + literal evaluator; pipeline conformance with gcc and clang',
+    text='The real immediate reader and literal writer are run natively on every f32 and i32 bit pattern (thorough: all 2^32 each; quick: 4.7M structured) and on class-structured f64/i64 sets (all 4096 sign/exponent values x ~300 significand patterns); the emitted C literal is evaluated by an own evaluator and must denote the input bits. About 30 000 constants are additionally put through the whole pipeline in function bodies, global initialisers and data/element segment offsets, compiled by gcc and clang and read back, which binds the evaluator to the compilers.',
+    note='f64/i64 are covered on structured sets, not all 2^64. Assumes correctly rounded decimal conversion in strtod and the compilers, and SSE float moves (no sNaN quieting).', ref='§2 C07'),
 }
 
 def main():
